@@ -37,6 +37,41 @@ func pegTraceLine(t []string) string {
 	return fmt.Sprintf("ok %d %s", ds.VerifParsedOffset(vm), trace)
 }
 
+// pegtracec <cfg> <hexpattern> <hexsrc> : as pegtrace, with RegCustomDice(pattern) registered
+func pegTraceCustomLine(t []string) string {
+	if len(t) != 4 {
+		return "bad-op"
+	}
+	cfg, ok := parseCfg(t[1])
+	pat, ok1 := unhx(t[2])
+	src, ok2 := unhx(t[3])
+	if !ok || !ok1 || !ok2 {
+		return "bad-op"
+	}
+	vm, _ := newVM(cfg, "-")
+	if err := vm.RegCustomDice(pat, func(ctx *ds.Context, groups []string, payload any) (*ds.VMValue, string, error) {
+		return ds.NewIntVal(1), "", nil
+	}); err != nil {
+		return "bad-op"
+	}
+	ds.VerifEmitTraceStart()
+	err := vm.Parse(src)
+	tr := ds.VerifEmitTraceStop()
+	parts := make([]string, len(tr))
+	for i, x := range tr {
+		parts[i] = strconv.Itoa(x)
+	}
+	trace := strings.Join(parts, ",")
+	if trace == "" {
+		trace = "-"
+	}
+	if err != nil {
+		return "err " + trace
+	}
+	return fmt.Sprintf("ok %d %s", ds.VerifParsedOffset(vm), trace)
+}
+
 func init() {
 	handlers["pegtrace"] = pegTraceLine
+	handlers["pegtracec"] = pegTraceCustomLine
 }
